@@ -16,6 +16,12 @@ package main
 // TransferError exactly on the readers/writers whose handle was still open, before Close,
 // every context cancelled, no package goroutine left.
 //
+// Part "objfault" (c11_objfault.go, runs first): handler OBJECTS WHOSE METHODS FAIL — counting objects x per-method
+// outcome schedules (ListAt / ReadAt / WriteAt returning (0, err), (n > 0, err), EOF variants, (0, nil); Close failing;
+// the handler method itself failing) x every request kind that obtains an object (STAT, LSTAT, FSTAT, READLINK with and
+// without ReadlinkFileLister, OPENDIR, OPEN r / w / rw) x 5 session ends; whatever its methods returned, every object
+// is closed exactly once, told TransferError exactly when its handle was still open, its context cancelled.
+//
 // Option dimensions (c11Configs; every value is a field of ssCfg, so replays carry it):
 //   - os-backed: ReadOnly() (refusals leave handle table, descriptors and tree alone; the tree must end as
 //     it began), WithDebug(recording writer) (the end-of-Serve sweep reports exactly the handles still open,
@@ -191,7 +197,7 @@ const c11ThoroughShare = 44
 func checkC11(c *lib.Ctx) {
 	r := c.R
 	thorough := c.Tier == "thorough"
-	r.Rule = "sessions: INIT + PRNG mix of OPEN (r / w+creat / rw, existing and missing files, handler errors), OPENDIR (ok, missing, not a directory), READ/WRITE/FSTAT/FSETSTAT/READDIR on live handles, CLOSE, repeated CLOSE, CLOSE and other requests on never-issued handles (\"999\", \"\", \"abc\", …), use-after-close, path requests; flavours: small, 32 handles opened first, all closed at the end or left open, \"read-only\" (every modifying request kind and OPEN with every combination of write / create / truncate / append / excl / read flags on existing and new names, the handles used and partly closed) and \"worn handle\" (per handle kind r/w/rw/dir: 32 sequential uses so that every pool worker has served it, 16 pipelined, CLOSE, then 16 sequential + 16 pipelined uses of the closed handle, second CLOSE, one more use, 4 pipelined CLOSEs); request-server flavours where 25 % (PRNG) or 100 % of the reader/writer/rw/lister objects fail their first Close; against os-backed Server (absolute paths / working directory) and RequestServer with counting handlers, allocator on and off (these eight configurations meet every session); option dimensions — os-backed: ReadOnly() x WithDebug(recording writer) x {absolute, working directory + relative paths, working directory <tree>/home/u + relative paths} x allocator; request server: {default, WithStartDirectory(\"/\") + relative, WithStartDirectory(\"/home/u\") + absolute, + relative paths} x allocator x handler objects {with / without io.Closer} x {with / without TransferError} (also mixed: only every second object without) x FilePut {with / without OpenFileWriter} x FileList {with / without LstatFileLister} x FileCmd {with / without PosixRenameFileCmder} x {with / without StatVFSFileCmder} (type variants by struct embedding, verified by type assertion when the server is built) x first-Close errors; quick: 13 members of the product (every new option value at least once, allocator / path style rotating with the seed) on every second session, thorough: the whole product, each member on a rotating 1/44 of the sessions (3 of 132) with the connection ended at 16 request indices each. For each session the connection is ended after request index i (quick: first, last and a PRNG subset; thorough: every i) in 5 ways: EOF after the reply, EOF without reading the reply, EOF inside the next packet, transport error, transport error inside the next packet; and, at request indices where handles are open (quick: 4 per (configuration, session), 2 packets each; thorough: all of them with 1 packet each on the base configurations, 6 with 2 packets each on the members of the option product), in a 6th way: a well-FRAMED packet whose BODY does not decode is the last thing the server receives — derived from a valid request of every kind (INIT, the 19 request types, statvfs / posix-rename / hardlink / unknown extended; handle requests name a live handle) by: nothing after the type byte, the frame ending inside each field (id, every string-length word, offset, length, pflags, attribute flags), inside each string, each string length announcing 1 / 4 / 1000 / 2^32-1 bytes more than the frame holds, an attribute block shorter than its flags (OPEN / SETSTAT / FSETSTAT: refused, then EOF), and type bytes that are no request (0, 2, 21, 99, 101-105, 199, 201, 255) — all combinations dealt out round-robin; every fourth in the same write as the last request, whose reply is not read first. The server has to stop by itself (the stream stays open until it did or 3 s passed), and every release oracle applies as for the other ends. Each case runs on a fresh server in a child process; non-trivial when at least one request follows INIT; distinct by (server config, session, cut index, mode, offset)"
+	r.Rule = "sessions: INIT + PRNG mix of OPEN (r / w+creat / rw, existing and missing files, handler errors), OPENDIR (ok, missing, not a directory), READ/WRITE/FSTAT/FSETSTAT/READDIR on live handles, CLOSE, repeated CLOSE, CLOSE and other requests on never-issued handles (\"999\", \"\", \"abc\", …), use-after-close, path requests; flavours: small, 32 handles opened first, all closed at the end or left open, \"read-only\" (every modifying request kind and OPEN with every combination of write / create / truncate / append / excl / read flags on existing and new names, the handles used and partly closed) and \"worn handle\" (per handle kind r/w/rw/dir: 32 sequential uses so that every pool worker has served it, 16 pipelined, CLOSE, then 16 sequential + 16 pipelined uses of the closed handle, second CLOSE, one more use, 4 pipelined CLOSEs); request-server flavours where 25 % (PRNG) or 100 % of the reader/writer/rw/lister objects fail their first Close; against os-backed Server (absolute paths / working directory) and RequestServer with counting handlers, allocator on and off (these eight configurations meet every session); option dimensions — os-backed: ReadOnly() x WithDebug(recording writer) x {absolute, working directory + relative paths, working directory <tree>/home/u + relative paths} x allocator; request server: {default, WithStartDirectory(\"/\") + relative, WithStartDirectory(\"/home/u\") + absolute, + relative paths} x allocator x handler objects {with / without io.Closer} x {with / without TransferError} (also mixed: only every second object without) x FilePut {with / without OpenFileWriter} x FileList {with / without LstatFileLister} x FileCmd {with / without PosixRenameFileCmder} x {with / without StatVFSFileCmder} (type variants by struct embedding, verified by type assertion when the server is built) x first-Close errors; quick: 13 members of the product (every new option value at least once, allocator / path style rotating with the seed) on every second session, thorough: the whole product, each member on a rotating 1/44 of the sessions (3 of 132) with the connection ended at 16 request indices each. For each session the connection is ended after request index i (quick: first, last and a PRNG subset; thorough: every i) in 5 ways: EOF after the reply, EOF without reading the reply, EOF inside the next packet, transport error, transport error inside the next packet; and, at request indices where handles are open (quick: 4 per (configuration, session), 2 packets each; thorough: all of them with 1 packet each on the base configurations, 6 with 2 packets each on the members of the option product), in a 6th way: a well-FRAMED packet whose BODY does not decode is the last thing the server receives — derived from a valid request of every kind (INIT, the 19 request types, statvfs / posix-rename / hardlink / unknown extended; handle requests name a live handle) by: nothing after the type byte, the frame ending inside each field (id, every string-length word, offset, length, pflags, attribute flags), inside each string, each string length announcing 1 / 4 / 1000 / 2^32-1 bytes more than the frame holds, an attribute block shorter than its flags (OPEN / SETSTAT / FSETSTAT: refused, then EOF), and type bytes that are no request (0, 2, 21, 99, 101-105, 199, 201, 255) — all combinations dealt out round-robin; every fourth in the same write as the last request, whose reply is not read first. The server has to stop by itself (the stream stays open until it did or 3 s passed), and every release oracle applies as for the other ends. Each case runs on a fresh server in a child process; non-trivial when at least one request follows INIT; distinct by (server config, session, cut index, mode, offset)." + ofRule
 	base, err := ssMkBase(ssBaseRnd())
 	if err != nil {
 		r.Fail(lib.Failure{Kind: "tie", Key: "tmpdir", What: err.Error()})
@@ -203,6 +209,11 @@ func checkC11(c *lib.Ctx) {
 		workers = 16
 	}
 	if c.Replay != "" {
+		var part ofInput
+		if err := lib.ReadReplay(c.Replay, &part); err == nil && part.Part == "objfault" && part.Case != nil {
+			checkC11ObjFault(c, part.Case)
+			return
+		}
 		var in ssInput
 		if err := lib.ReadReplay(c.Replay, &in); err != nil || in.End == nil {
 			r.Fail(lib.Failure{Kind: "tie", Key: "replay", What: fmt.Sprint("bad replay input: ", err)})
@@ -219,6 +230,14 @@ func checkC11(c *lib.Ctx) {
 			mc.add(j, &res)
 			mc.close()
 		}
+		return
+	}
+
+	// part objfault (c11_objfault.go): handler objects whose methods fail, on every request kind that obtains one
+	if os.Getenv("VH_C11_PART") != "sessions" {
+		checkC11ObjFault(c, nil)
+	}
+	if os.Getenv("VH_C11_PART") == "objfault" {
 		return
 	}
 
